@@ -6,7 +6,10 @@
 (* re-anchors to show the cursor.  hs[i+1] is the height the builder's item *)
 (* i draws at; the builder has no item for i >= Len(hs).  Indexing an empty *)
 (* child list sets crashed.  (The cursor gutter is not modelled: it does    *)
-(* not move anything.)                                                      *)
+(* not move anything.)  Transcribed WITH the two repairs proposed in         *)
+(* notes/proposed-fixes/c19-1.diff (Draw selects the last existing item when *)
+(* the cursored one does not exist) and c19-2.diff (the top item is the one  *)
+(* whose rows or trailing gap cover viewport row 0).                         *)
 EXTENDS Integers, Sequences
 
 DNew(hs, gap) == [hs |-> hs, gap |-> gap, cursor |-> 0, top |-> 0, offset |-> 0, pending |-> 0,
@@ -65,17 +68,20 @@ Finish(s, H, kids0) ==
                ELSE IF ch.row + ch.h > H THEN Shift(kids0, H - (ch.row + ch.h))
                ELSE IF ch.row < 0 THEN Shift(kids0, -ch.row)
                ELSE kids0
-      cover == {j \in 1..Len(kids1) : kids1[j].row <= 0 /\ kids1[j].row + kids1[j].h > 0}
-      j0 == CHOOSE j \in cover : TRUE
+      cover == {j \in 1..Len(kids1) : kids1[j].row <= 0 /\ kids1[j].row + kids1[j].h + s.gap > 0}
+      j0 == CHOOSE j \in cover : \A j2 \in cover : j <= j2
   IN [s EXCEPT !.wants = IF have THEN FALSE ELSE s.wants,
                !.kids = kids1,
                !.top = IF cover = {} THEN s.top ELSE s.top + (j0 - 1),
                !.offset = IF cover = {} THEN s.offset ELSE -kids1[j0].row]
 
 DDraw(sIn, H) ==
-  LET \* the top item may be gone: fall back to the last one that exists
-      s0  == IF sIn.top > 0 /\ sIn.top >= N(sIn)
-             THEN [sIn EXCEPT !.top = IF N(sIn) > 0 THEN N(sIn) - 1 ELSE 0, !.offset = 0] ELSE sIn
+  LET \* the cursored item may not exist: select the last one that does and bring it into view
+      sC  == IF sIn.cursor > 0 /\ sIn.cursor >= N(sIn)
+             THEN EnsureScroll([sIn EXCEPT !.cursor = IF N(sIn) > 0 THEN N(sIn) - 1 ELSE 0]) ELSE sIn
+      \* the top item may be gone: fall back to the last one that exists
+      s0  == IF sC.top > 0 /\ sC.top >= N(sC)
+             THEN [sC EXCEPT !.top = IF N(sC) > 0 THEN N(sC) - 1 ELSE 0, !.offset = 0] ELSE sC
       ahA == -(s0.offset + s0.pending)
       s1  == [s0 EXCEPT !.pending = 0]
       atTop == ahA > 0 /\ s1.top = 0
